@@ -10,6 +10,7 @@ facts; for IEEE NaN/Inf operands `0*x` is NaN, so folding can change non-finite 
 -/
 import FfcxProofs.Lemmas.Fold
 import FfcxProofs.Lemmas.Index
+import FfcxProofs.Lemmas.Threads
 import FfcxModel.LNodes.Scalars
 
 namespace Ffcx.LNodes
@@ -281,5 +282,24 @@ theorem fuse_adjacent_sections_partial (n : String) (d₁ d₂ s₂ : List Stmt)
     cases execL x d₂ σ₁ with
     | error e => rfl
     | ok σ₂ => simp only []; cases execL x s₂ σ₂ <;> rfl
+
+end Ffcx.LNodes
+
+/-! ## Part 3: statements hopping over other statements (section fusion) -/
+
+namespace Ffcx.LNodes
+variable {R : Type} [Add R] [Sub R] [Mul R] [Div R] [Neg R] [IntCast R] (x : Extra R)
+
+/-- **fuse_sections_sound (hop).** `fuse_sections` moves the declarations and statements of later
+    same-named sections up to the first one, i.e. it lets a statement `t` hop over the list `p` of
+    statements in between. If `t` writes no name mentioned in `p` and `p` writes no name `t` mentions
+    (decidable, `disjointB [t] p`), then `t; p` and `p; t` fail together or end in extensionally equal
+    states, for every initial state. -/
+theorem fuse_sections_hop_sound (t : Stmt) (p : List Stmt) (hd : disjointB [t] p = true) (σ : St R) :
+    ResEq ((exec x t σ).bind (execL x p)) ((execL x p σ).bind (exec x t)) := by
+  have d := disjoint_of_disjointB [t] p hd
+  refine hop_over_list x t p (fun n hn => ?_) (fun n hn => ?_) σ
+  · have := d.2 n hn; simpa [neverWrittenL] using this
+  · exact d.1 n (by simp [mentionsSL, hn])
 
 end Ffcx.LNodes
